@@ -695,8 +695,13 @@ class Calls(Interp):
         (x,) = args
         xl = self.lift(x, st)
         if h.val is None:
-            base = z3.K(xl.t.sort(), z3.BoolVal(False))
-            ty = SET(xl.ty)
+            if xl.ty.kind == 'cls' and self.reg.root_of(xl.ty.args[0]) in self.key_projection:
+                kt = self.key_projection[self.reg.root_of(xl.ty.args[0])](self, xl, st)
+                base = z3.K(kt.sort(), z3.BoolVal(False))
+                ty = SET(BYTES)
+            else:
+                base = z3.K(xl.t.sort(), z3.BoolVal(False))
+                ty = SET(xl.ty)
         else:
             base, ty = h.val.t, h.val.ty
         self._store_container(st, ref, h, V(z3.Store(base, self.key_term(x, ty.args[0], st), z3.BoolVal(True)), ty))
@@ -775,9 +780,14 @@ class Calls(Interp):
             raise Outside("to_bytes variant")
         if is_concrete(recv):
             try:
-                yield st, recv.to_bytes(length, 'big')
+                r = recv.to_bytes(length, 'big')
             except OverflowError:
                 yield st, Raised(ExcVal(OverflowError))
+                return
+            # tie the concrete result to the symbolic encoder function used elsewhere for the same width
+            tb = self.uf('to_be%d' % length, z3.IntSort(), BYTES_SORT)
+            self.add_func_axiom(tb(z3.IntVal(recv)) == bytes_term(r))
+            yield st, r
             return
         x = self.term(recv, INT)
         for s2, ok in self.branch(st, z3.And(x >= 0, x < 256 ** length), "L%s:to_bytes" % getattr(e, 'lineno', '?')):
@@ -797,11 +807,11 @@ class Calls(Interp):
         self.assumptions_used.add('A-STRUCT')
         return V(r, BYTES)
 
-    def bytes_to_int(self, b, st):
+    def bytes_to_int(self, b, st, widths=(32,)):
         be = self.uf('be', BYTES_SORT, z3.IntSort())
         r = be(b)
-        self.add_func_axiom(z3.And(r >= 0))
-        for n in (1, 2, 4, 8, 32):
+        self.add_func_axiom(r >= 0)
+        for n in widths:
             self.add_func_axiom(z3.Implies(z3.Length(b) == n, z3.And(r < 256 ** n, self.uf('to_be%d' % n, z3.IntSort(), BYTES_SORT)(r) == b)))
         self.assumptions_used.add('A-STRUCT')
         return V(r, INT)
@@ -890,7 +900,7 @@ class Calls(Interp):
         bt = self.term(b, BYTES, st)
         for s2, ok in self.branch(st, z3.Length(bt) == n, "struct.unpack"):
             if ok:
-                yield s2, (self.bytes_to_int(bt, s2),)
+                yield s2, (self.bytes_to_int(bt, s2, (n,)),)
             else:
                 yield s2, Raised(ExcVal(_struct.error))
 
